@@ -274,6 +274,7 @@ func unNot(e ast.Expr) (ast.Expr, bool) {
 // statement without an init clause, or the equivalent tagless switch with one
 // conditional case (and an optional default).
 func asIf(st ast.Stmt) (cond ast.Expr, body, els []ast.Stmt, ok bool) {
+	defer func() { body, els = stripNoops(body), stripNoops(els) }()
 	switch s := st.(type) {
 	case *ast.IfStmt:
 		if s.Init != nil {
@@ -305,6 +306,65 @@ func asIf(st ast.Stmt) (cond ast.Expr, body, els []ast.Stmt, ok bool) {
 		return first.List[0], first.Body, els, true
 	}
 	return nil, nil, nil, false
+}
+
+// isNoop reports a statement without any effect: the empty statement, or an
+// assignment of call-free, receive-free expressions to blank identifiers only.
+func isNoop(st ast.Stmt) bool {
+	switch s := st.(type) {
+	case *ast.EmptyStmt:
+		return true
+	case *ast.AssignStmt:
+		if s.Tok != token.ASSIGN {
+			return false
+		}
+		for _, l := range s.Lhs {
+			if id, ok := l.(*ast.Ident); !ok || id.Name != "_" {
+				return false
+			}
+		}
+		pure := true
+		for _, r := range s.Rhs {
+			ast.Inspect(r, func(x ast.Node) bool {
+				switch y := x.(type) {
+				case *ast.CallExpr, *ast.FuncLit, *ast.IndexExpr, *ast.SliceExpr, *ast.StarExpr, *ast.TypeAssertExpr, *ast.SelectorExpr:
+					pure = false
+				case *ast.UnaryExpr:
+					if y.Op == token.ARROW {
+						pure = false
+					}
+				case *ast.BinaryExpr:
+					if y.Op == token.QUO || y.Op == token.REM {
+						pure = false
+					}
+				}
+				return pure
+			})
+		}
+		return pure
+	}
+	return false
+}
+
+// stripNoops returns list without its no-op statements (the list itself when
+// it has none).
+func stripNoops(list []ast.Stmt) []ast.Stmt {
+	n := 0
+	for _, st := range list {
+		if isNoop(st) {
+			n++
+		}
+	}
+	if n == 0 {
+		return list
+	}
+	out := make([]ast.Stmt, 0, len(list)-n)
+	for _, st := range list {
+		if !isNoop(st) {
+			out = append(out, st)
+		}
+	}
+	return out
 }
 
 // resolveBool looks through a named condition: a boolean local with exactly
